@@ -65,6 +65,8 @@ class Engine:
                 self.s.add(c)
             r = self.s.check()
             m = self.s.model() if r == z3.sat else None
+            if CrossCheck.enabled and str(r) != "unknown":
+                CrossCheck.maybe(self.s, str(r))
             self.s.pop()
         self.nchecks += 1
         self.solver_time += time.time() - t
@@ -155,6 +157,58 @@ class Engine:
             if not self.decisions:
                 return
             self.decisions[-1] = [False, False]
+
+
+class CrossCheck:
+    """Second-solver spot check (thorough tier): a VERIF_SEED-chosen fraction of the obligation queries is dumped as
+    SMT-LIB2 and re-decided by the cvc5 1.0.3 and z3 4.8.12 binaries; a definite answer that differs from ours, or an
+    '(error' line, is recorded as a disagreement (the run becomes inconclusive)."""
+
+    enabled = False
+    rate = 0.02
+    rng = None
+    stats = {"dumped": 0, "agree": 0, "unknown_or_timeout": 0, "disagree": 0, "notes": []}
+
+    @classmethod
+    def enable(cls, seed, rate=0.02):
+        import random
+        cls.enabled, cls.rate, cls.rng = True, rate, random.Random(seed)
+
+    @classmethod
+    def maybe(cls, solver, ours):
+        if cls.rng.random() >= cls.rate:
+            return
+        import os
+        import subprocess
+        import tempfile
+        try:
+            text = solver.to_smt2()
+        except Exception as e:  # cannot print: not a disagreement
+            return
+        cls.stats["dumped"] += 1
+        fd, path = tempfile.mkstemp(suffix=".smt2", prefix="verif_x_")
+        try:
+            with os.fdopen(fd, "w") as f:
+                f.write("(set-logic ALL)\n" + text.replace("(set-logic ALL)", ""))
+            for cmd in (["cvc5", "--tlimit=20000", path], ["/usr/bin/z3", "-T:20", path]):
+                try:
+                    p = subprocess.run(cmd, capture_output=True, text=True, timeout=40)
+                    out = (p.stdout + p.stderr).strip()
+                except subprocess.TimeoutExpired:
+                    out = "timeout"
+                first = out.splitlines()[0].strip() if out else ""
+                if "(error" in out or first not in ("sat", "unsat"):
+                    cls.stats["unknown_or_timeout"] += 1
+                elif first == ours:
+                    cls.stats["agree"] += 1
+                else:
+                    cls.stats["disagree"] += 1
+                    cls.stats["notes"].append(f"{cmd[0]} says {first}, z3 5.1 says {ours}")
+        finally:
+            try:
+                os.unlink(path)
+            except OSError:
+                pass
 
 
 def _bits(n: int) -> int:
